@@ -3,7 +3,7 @@
 EXTENDS RateUpdate
 
 CONSTANTS Family,       \* set of rate sets (sequences of [p, a, b], increasing p)
-          Tps, Amounts, Advances, MaxReq, Horizon, KeepTokens
+          Tps, Amounts, Advances, MaxReq, Horizon, RefillOnUpdate
 
 VARIABLES now, tracked, gp, cur, nreq, last
 vars == <<now, tracked, gp, cur, nreq, last>>
@@ -14,7 +14,7 @@ Init == /\ now = 0 /\ tracked = NoFn /\ gp = NoFn /\ cur = <<>> /\ nreq = 0
 
 Request(rates, n) ==
   /\ nreq < MaxReq
-  /\ LET r == ConsumeRatesDyn(tracked, rates, 4, Tps, now, "s", n, "s", KeepTokens)
+  /\ LET r == ConsumeRatesDyn(tracked, rates, 4, Tps, now, "s", n, "s", RefillOnUpdate)
          g0 == IF r.fresh THEN NoFn ELSE gp        \* a forgotten source starts afresh (C03's qualifier covers that case)
      IN /\ tracked' = r.tracked
         /\ gp' = GhostStep(g0, rates, now, n, r.out = "ok")
